@@ -643,3 +643,104 @@ func listSides(p *load.Prog, r *oblig.Run, rule string, root *ssa.Function, regi
 		}
 	}
 }
+
+// strideMatchesWorkers (R11.j): a job producer that hands util.WorkerPool n
+// workers and lets worker w start at index w must advance by that same n -
+// with a smaller step the workers' index sets overlap (the same individual is
+// sent several times), with a larger one some indices have no worker.
+func strideMatchesWorkers(p *load.Prog, r *oblig.Run, rule string, region map[*ssa.Function]bool) {
+	wp := p.Func(load.PkgUtil, "WorkerPool")
+	if wp == nil {
+		r.Add(rule, "anchor", "-", "anchor").Unknown("util.WorkerPool not found")
+		return
+	}
+	cell := func(v ssa.Value, in *ssa.Function) ssa.Value {
+		// the variable a value is loaded from: an Alloc of the enclosing function (directly or as a captured variable)
+		ld, ok := v.(*ssa.UnOp)
+		if !ok || ld.Op != token.MUL {
+			return v
+		}
+		switch x := ld.X.(type) {
+		case *ssa.Alloc:
+			return x
+		case *ssa.FreeVar:
+			if par := in.Parent(); par != nil {
+				for _, b := range par.Blocks {
+					for _, ins := range b.Instrs {
+						if mc, ok := ins.(*ssa.MakeClosure); ok && mc.Fn == in {
+							for j, fv := range in.FreeVars {
+								if fv == x {
+									return mc.Bindings[j]
+								}
+							}
+						}
+					}
+				}
+			}
+		}
+		return v
+	}
+	var fns []*ssa.Function
+	for f := range region {
+		fns = append(fns, f)
+	}
+	for _, f := range p.Repo {
+		if pkgPathOf(f) == load.PkgRoot && !region[f] {
+			fns = append(fns, f)
+		}
+	}
+	sort.Slice(fns, func(i, j int) bool { return fns[i].String() < fns[j].String() })
+	seenFn := map[*ssa.Function]bool{}
+	for _, fn := range fns {
+		if seenFn[fn] {
+			continue
+		}
+		seenFn[fn] = true
+		for _, c := range su.CallsTo(fn, wp) {
+			if len(c.Call.Args) != 2 {
+				continue
+			}
+			mc, ok := c.Call.Args[1].(*ssa.MakeClosure)
+			if !ok {
+				continue
+			}
+			body := mc.Fn.(*ssa.Function)
+			if len(body.Params) != 1 {
+				continue
+			}
+			nCell := cell(c.Call.Args[0], fn)
+			for _, h := range loopHeaders(body) {
+				for _, ins := range h.Instrs {
+					ph, ok := ins.(*ssa.Phi)
+					if !ok {
+						continue
+					}
+					// starts at the worker number?
+					starts := false
+					var back ssa.Value
+					for i, pr := range h.Preds {
+						if h.Dominates(pr) {
+							back = ph.Edges[i]
+						} else if ph.Edges[i] == ssa.Value(body.Params[0]) {
+							starts = true
+						}
+					}
+					if !starts || back == nil {
+						continue
+					}
+					o := r.Add(rule, "stride of the worker loop in "+load.FuncName(body), p.Pos(h.Instrs[len(h.Instrs)-1].Pos()), "step of a loop that starts at the worker number")
+					bo, ok := back.(*ssa.BinOp)
+					if !ok || bo.Op != token.ADD || bo.X != ssa.Value(ph) {
+						o.Unknown("the loop variable is not advanced by an addition")
+						continue
+					}
+					if cell(bo.Y, body) == nCell && nCell != nil {
+						o.OK("advances by the number of workers handed to WorkerPool")
+					} else {
+						o.Fail("worker w starts at index w but the loop advances by " + bo.Y.String() + ", not by the number of workers handed to WorkerPool: the workers' index sets overlap or leave gaps - the same individual is compared and sent by several workers (duplicated in the merge) or never examined")
+					}
+				}
+			}
+		}
+	}
+}
